@@ -8,7 +8,7 @@ proof (Props/C15.v over Git/Model.v, Gen/GitignoreInitial.v regenerated from /re
        the model, judging every real xvc run of (b).
 Every scenario runs in its own scratch directory with its own HOME / XDG dirs, GIT_CONFIG_GLOBAL and
 GIT_CONFIG_SYSTEM = /dev/null and the identity given through the environment."""
-import os, re, json, hashlib, subprocess, itertools, shutil, importlib.util, time
+import os, re, json, hashlib, subprocess, itertools, shutil, importlib.util, time, threading
 from concurrent.futures import ThreadPoolExecutor
 from . import common as C
 
@@ -638,17 +638,23 @@ SETTINGS = ["default", "auto_stage", "nogit", "skipgit", "tobranch"]
 USER_FILES = {"src/a.txt": (1, 1), "notes.txt": (1,), "docs/u.txt": (1,), "del.txt": (1,), "p24.txt": (1, 1), "sub/.gitignore": (1,)}
 
 
+class TemplateError(Exception):
+    pass
+
+
 def make_template(xvc_bin):
     """git init; xvc init; a tracked data file; user files committed by the user; a tag and a second branch"""
     t = Repo("c15tpl")
     t.git("init", "-q", "-b", "main", check=True)
     rc, out, err = t.xvc(xvc_bin, ["init"])
     if rc != 0 or "[ERROR]" in err or "panicked" in err:
-        raise RuntimeError("xvc init failed: %s %s" % (out[-300:], err[-300:]))
+        t.cleanup()
+        raise TemplateError("`xvc init` fails in a fresh Git repository: %s %s" % (out[-300:], err[-300:]))
     t.write("data/t.bin", b"tracked data\n")
     rc, out, err = t.xvc(xvc_bin, ["file", "track", "data/t.bin"])
     if rc != 0 or "[ERROR]" in err or "panicked" in err:
-        raise RuntimeError("xvc file track failed: %s %s" % (out[-300:], err[-300:]))
+        t.cleanup()
+        raise TemplateError("`xvc file track` fails in a fresh repository: %s %s" % (out[-300:], err[-300:]))
     for p, v in USER_FILES.items():
         t.write(p, enc_blob(v, "", p))
     t.git("add", *sorted(USER_FILES), check=True)
@@ -886,6 +892,20 @@ def oracle(repo, before, after, cmd, setting, xvc_touched):
     return bad, len(new)
 
 
+P24_SYMPTOMS = ("git status of user files changed", "staged change of ", "index entry of ", "user file ", "stash list changed")
+
+
+def p24_symptoms_only(msgs):
+    """what P24 does: the stash is not popped (or a stale entry is left), so staged changes leave index and work
+    tree and the stash list grows.  Commits with user files, moved refs, a switched branch, newly staged
+    files or a commit by a read-only command are never excused by the class."""
+    return bool(msgs) and all(m.startswith(P24_SYMPTOMS) for m in msgs)
+
+
+def sc_key(sc):
+    return (tuple(sc["features"]), sc["command"], sc["setting"])
+
+
 def known_class_real(before, xvc_touched):
     """P24 class on the real before-state: a path with a staged change that also has an unstaged
     change or is written by the command"""
@@ -984,7 +1004,7 @@ def all_scenarios():
 def pick_scenarios(rng, tier):
     al = list(all_scenarios())
     if tier != "quick":
-        n = 2200
+        n = 1800
         must = [s for s in al if len(s["features"]) <= 1]
         rest = [s for s in al if len(s["features"]) > 1]
         rng.shuffle(rest)
@@ -1068,7 +1088,7 @@ def run(chk, replay=None):
     # ---------------- (a) Git-model validation
     acases = [c for c in corpus if c.get("kind") == "git-op"]
     if not replay:
-        acases += [gen_git_case(rng) for _ in range(450 if tier == "quick" else 6000)]
+        acases += [gen_git_case(rng) for _ in range(450 if tier == "quick" else 5000)]
     t0 = time.time()
     with ThreadPoolExecutor(threads) as ex:
         ares = list(ex.map(lambda c: _safe(run_git_case, c, gitmodel, codec_a), acases))
@@ -1099,51 +1119,74 @@ def run(chk, replay=None):
     t0 = time.time()
     results = []
     if scs:
-        template = (make_template(xvc_bin), make_plain_template())
+        try:
+            template = (make_template(xvc_bin), make_plain_template())
+        except TemplateError as e:
+            # xvc cannot even set up a repository with Git automation on: nothing of (b)/(c) can run
+            chk.fail("correspondence", str(e), {"theorem_or_correspondence": "dispatch vs xvc: template repository (git init; xvc init; xvc file track)"},
+                     name="template", has_input=False)
+            template, scs = None, []
         try:
             with ThreadPoolExecutor(threads) as ex:
                 results = list(ex.map(lambda s: _safe_sc(s, xvc_bin, template, gitmodel), scs))
-            reported = set()
-            nknown = 0
+            memo, memo_lock = {}, threading.Lock()
+            for r in results:
+                memo[sc_key(r["sc"])] = r
+
+            def run_memo(s2):
+                k = sc_key(s2)
+                with memo_lock:
+                    if k in memo:
+                        return memo[k]
+                r2 = _safe_sc(s2, xvc_bin, template, gitmodel)
+                with memo_lock:
+                    memo[k] = r2
+                return r2
+
+            def shrink_one(job):
+                r, kind = job
+                field = "oracle" if kind == "oracle" else "corr"
+                small = shrink_scenario(r["sc"], lambda s2: bool(run_memo(s2)[field]))
+                r2 = run_memo(small)
+                if not r2[field]:
+                    small, r2 = r["sc"], r
+                return kind, small, r2
+
+            jobs = []
             for r in results:
                 sc = r["sc"]
-                key = ("b", tuple(sc["features"]), sc["command"], sc["setting"])
-                chk.count(key, bool(r.get("staged_before")) and sc["setting"] not in ("nogit", "skipgit"))
+                chk.count(("b",) + sc_key(sc), bool(r.get("staged_before")) and sc["setting"] not in ("nogit", "skipgit"))
                 for f in sc["features"] or ["none"]:
                     dist["feat:" + f] = dist.get("feat:" + f, 0) + 1
                 dist["cmd:" + sc["command"]] = dist.get("cmd:" + sc["command"], 0) + 1
                 dist["set:" + sc["setting"]] = dist.get("set:" + sc["setting"], 0) + 1
                 if not r["corr"]:
                     chk.cov["traces_validated_against_impl"] += 1
-                if not r["oracle"] and not r["corr"]:
-                    continue
-                kind = "oracle" if r["oracle"] else "correspondence"
-                if len(reported) >= 4 and not (r["oracle"] and r["known"]):
-                    continue
-
-                def fails(s2, kind=kind):
-                    r2 = _safe_sc(s2, xvc_bin, template, gitmodel)
-                    return bool(r2["oracle"]) if kind == "oracle" else bool(r2["corr"]) and not r2["oracle"]
-                small = shrink_scenario(sc, fails)
-                r2 = _safe_sc(small, xvc_bin, template, gitmodel)
-                if not (r2["oracle"] or r2["corr"]):
-                    small, r2 = sc, r
-                kind = "oracle" if r2["oracle"] else "correspondence"
-                klass = KLASS_P24 if (kind == "oracle" and r2["known"]) else None
-                sig = (kind, klass, tuple(small["features"]), small["command"], small["setting"]) if not klass else (kind, klass)
-                if sig in reported:
+                # an oracle failure and a disagreement with the model are two different reports: inside the
+                # known class the model must still predict what xvc and git do
+                if r["oracle"]:
+                    jobs.append((r, "oracle"))
+                if r["corr"]:
+                    jobs.append((r, "correspondence"))
+            with ThreadPoolExecutor(threads) as ex:
+                shrunk = list(ex.map(shrink_one, jobs))
+            reported = set()
+            for kind, small, r2 in shrunk:
+                msgs = r2["oracle"] if kind == "oracle" else r2["corr"]
+                # the class is decided on the shrunk input, and only the symptoms of P24 are excused
+                klass = KLASS_P24 if (kind == "oracle" and r2["known"] and p24_symptoms_only(msgs)) else None
+                sig = (kind, klass) if klass else (kind, sc_key(small))
+                if sig in reported or (not klass and len(reported) >= 6):
                     continue
                 reported.add(sig)
-                if klass:
-                    nknown += 1
-                what = "; ".join((r2["oracle"] if kind == "oracle" else r2["corr"])[:3])
-                chk.fail(kind, ("after `xvc %s` (%s) on a user state with %s: " % (small["command"], small["setting"], "+".join(small["features"]) or "nothing pending")) + what,
+                chk.fail(kind, ("after `xvc %s` (%s) on a user state with %s: " % (small["command"], small["setting"], "+".join(small["features"]) or "nothing pending")) + "; ".join(msgs[:3]),
                          {"input": dict(small, kind="xvc-scenario"), "oracle": r2["oracle"], "correspondence": r2["corr"],
                           "trace": r2.get("trace"), "model": r2.get("model"), "xvc": r2.get("xvc"),
                           "theorem_or_correspondence": "automation_preserves_user_view / dispatch vs xvc + git-shim"},
                          name="xvc", klass=klass, has_input=(kind == "oracle"))
         finally:
-            template[0].cleanup(); template[1].cleanup()
+            if template:
+                template[0].cleanup(); template[1].cleanup()
     chk.cov["xvc_scenarios"] = {"runs": len(results), "wall_s": round(time.time() - t0, 1),
                                 "oracle_failures": sum(1 for r in results if r["oracle"]),
                                 "in_known_class": sum(1 for r in results if r["known"]),
@@ -1152,24 +1195,28 @@ def run(chk, replay=None):
     for r in results[:3]:
         chk.sample({"scenario": r["sc"], "trace": r.get("trace"), "model": r.get("model")})
     chk.cov["rule"] = ("(a) one case = a generated Git state (0-3 commits, branches/tag/detached/unborn HEAD, index and work tree mutated from HEAD, 0-2 stash entries) x one sub-command "
-                       "or the stash/add/commit/pop sandwich; non-trivial = the index differs from HEAD or the stash is not empty.  (b) one case = user-state feature subset (<=3 of 9) x xvc command x setting; "
+                       "or the stash/add/commit/pop sandwich; non-trivial = the index differs from HEAD or the stash is not empty.  (b) one case = user-state feature subset (<=3 of 10: staged new file / modification / deletion, unstaged edit, untracked file, older stash entry, detached HEAD, staged+unstaged hunks on one path, staged edit of a .gitignore xvc does not write, staged edit of the .gitignore xvc appends to) x xvc command (file track, file list, pipeline step new, check-ignore, root, file recheck; init in a plain Git repository, oracle only) x setting (default, auto_stage, use_git=false, --skip-git, --to-branch); "
                        "non-trivial = something is staged before the run and Git automation is on.  distinct by input.")
     chk.cov["distribution"] = dist
     chk.cov["exhaustive"] = False
     return chk
 
 
-def _safe(f, c, *a):
+def _safe(f, c, *a, retry=True):
     try:
         return f(c, *a)
     except Exception as e:                                   # harness trouble is a disagreement to look at, never silence
+        if retry:
+            return _safe(f, c, *a, retry=False)
         return "harness error: %r" % (e,), {"harness": True}
 
 
-def _safe_sc(sc, xvc_bin, template, gitmodel):
+def _safe_sc(sc, xvc_bin, template, gitmodel, retry=True):
     try:
         return run_scenario(sc, xvc_bin, template, gitmodel)
     except Exception as e:
+        if retry:
+            return _safe_sc(sc, xvc_bin, template, gitmodel, retry=False)
         import traceback
         return {"sc": sc, "oracle": [], "corr": ["harness error: %r %s" % (e, traceback.format_exc()[-300:])], "known": False}
 
